@@ -492,7 +492,7 @@ pub fn child_main(args: &[String]) -> i32 {
                     Err(_) => Worterbuch::with_config(cfg.clone()),
                 };
                 note(json!({"loaded": user_part(&content_of(&wb))}));
-            } else if step == "flush" {
+            } else if step == "flush" || step == "pflush" {
                 flush_no += 1;
                 let content = content_of(&wb);
                 let reg_gg: Vec<String> = content
@@ -507,7 +507,11 @@ pub fn child_main(args: &[String]) -> i32 {
                     .collect();
                 let expected = apply_registrations(&content, &reg_gg, &reg_lw, false);
                 note(json!({"flush": flush_no, "phase": "begin", "expected": expected}));
-                worterbuch::verif::json::synchronous(&mut wb, &cfg).await.expect("flush");
+                if step == "flush" {
+                    worterbuch::verif::json::synchronous(&mut wb, &cfg).await.expect("flush");
+                } else {
+                    wb = periodic_flush(wb, &cfg).await;
+                }
                 note(json!({"flush": flush_no, "phase": "end"}));
             } else if let Some(i) = step.strip_prefix('s') {
                 let i: i64 = i.parse().expect("state index");
@@ -528,6 +532,71 @@ pub fn child_main(args: &[String]) -> i32 {
         }
     });
     0
+}
+
+/// One tick of the real periodic flush task (`json::periodic`: export through the API, then
+/// write), with the core owned by a task that serves the API meanwhile.
+async fn periodic_flush(wb: Worterbuch, cfg: &Config) -> Worterbuch {
+    use tokio::sync::mpsc;
+    let (tx, mut rx) = mpsc::channel::<worterbuch::verif::WbFunction>(16);
+    let mut pcfg = cfg.clone();
+    pcfg.persistence_interval = std::time::Duration::from_secs(1);
+    let api = worterbuch::server::CloneableWbApi::new(tx, pcfg.clone());
+    let (stx, mut srx) = mpsc::channel::<tosub::SubsystemHandle>(1);
+    tokio::spawn(async move {
+        tosub::build_root("wbmc")
+            .catch_no_signals()
+            .no_shutdown_on_stdin_close()
+            .start(move |s: tosub::SubsystemHandle| async move {
+                stx.send(s.clone()).await.ok();
+                s.shutdown_requested().await;
+                Ok::<(), miette::Error>(())
+            })
+            .await
+            .ok();
+    });
+    let subsys = loop {
+        if let Ok(s) = srx.try_recv() {
+            break s;
+        }
+        tokio::task::yield_now().await;
+    };
+    let core = tokio::spawn(async move {
+        let mut wb = wb;
+        while let Some(f) = rx.recv().await {
+            worterbuch::verif::process_api_call(&mut wb, f).await;
+        }
+        wb
+    });
+    let toggle = std::path::PathBuf::from(&cfg.data_dir).join(".toggle");
+    let before = toggle.exists();
+    let periodic = tokio::spawn(worterbuch::verif::json::periodic(api.clone(), pcfg, subsys.clone()));
+    for _ in 0..20 {
+        tokio::task::yield_now().await;
+    }
+    tokio::time::advance(std::time::Duration::from_millis(1050)).await;
+    // the file operations run on the blocking pool: wait (in real time) until the slot selector
+    // has flipped, which is the flush's last step before the time stamp
+    let mut n = 0;
+    while toggle.exists() == before && n < 20_000 {
+        tokio::task::yield_now().await;
+        std::thread::sleep(std::time::Duration::from_micros(200));
+        n += 1;
+    }
+    for _ in 0..50 {
+        tokio::task::yield_now().await;
+        std::thread::sleep(std::time::Duration::from_micros(200));
+    }
+    subsys.request_global_shutdown();
+    drop(api);
+    for _ in 0..50 {
+        tokio::task::yield_now().await;
+    }
+    periodic.abort();
+    match core.await {
+        Ok(wb) => wb,
+        Err(_) => panic!("MACHINERY: core task of the periodic flush failed"),
+    }
 }
 
 #[derive(Debug, Clone)]
@@ -628,7 +697,11 @@ pub fn run_c10(tier: &str) -> i32 {
         return rep.finish(&mut ev);
     }
     let flushes = if tier == "thorough" { 4 } else { 3 };
-    let script1: String = (1..=flushes).map(|i| format!("s{i},flush")).collect::<Vec<_>>().join(",");
+    // alternate the shutdown/follower variant and the periodic variant (export through the API)
+    let script1: String = (1..=flushes)
+        .map(|i| format!("s{i},{}", if i % 2 == 1 { "flush" } else { "pflush" }))
+        .collect::<Vec<_>>()
+        .join(",");
     // dry run: number of crash points and the call log
     let dry_dir = fresh_dir(&root, "dry");
     let log = root.join("dry.log");
@@ -710,7 +783,7 @@ pub fn run_c10(tier: &str) -> i32 {
     // level 2: from every distinct directory state: load -> mutate -> flush -> mutate -> flush,
     // crashed at every index again
     let max_l2 = usize::MAX;
-    let script2 = format!("load,s{},flush,s{},flush", flushes + 1, flushes + 2);
+    let script2 = format!("load,s{},pflush,s{},flush", flushes + 1, flushes + 2);
     let starts: Vec<(String, PathBuf, Vec<Value>)> =
         distinct_dirs.iter().take(max_l2).map(|(k, (d, a))| (k.clone(), d.clone(), a.clone())).collect();
     let mut l2_jobs = vec![];
@@ -776,6 +849,6 @@ pub fn run_c10(tier: &str) -> i32 {
     ev.set("samples", json!(calls.iter().take(16).collect::<Vec<_>>()));
     ev.assume("process-crash model: completed file operations persist in order; only *.tmp files can be torn (power-loss reordering is outside the property)");
     ev.assume("crash points are injected at the libc boundary (open with O_CREAT/O_TRUNC, write, rename, unlink of an existing file, ...) of calls below the data directory");
-    ev.assume("flushes are the synchronous variant (shutdown / follower path); the periodic variant shares write_and_check/file_paths and differs only in how the export is obtained");
+    ev.assume("the history alternates the synchronous flush (shutdown / follower path) and one tick of the real periodic flush task (export through the API on a paused clock, file operations on the blocking pool)");
     rep.finish(&mut ev)
 }
